@@ -46,7 +46,10 @@ def main(argv):
         print("z3", z3.get_version_string(), "|", out)
         driver.load_contracts()
         print("contracts:", len(driver.REG.contracts), "loops:", len(driver.REG.loops), "lemmas:", len(driver.REG.lemmas))
-        return 0
+        from . import leancheck
+        ok, info = leancheck.run()
+        print("lean lemma base:", info)
+        return 0 if ok else 1
     print("usage: python -m pyvc verify <qualname>... | check <ID> [--tier quick|thorough]")
     return 2
 
